@@ -294,6 +294,12 @@ def report_finding(ctx, key, what, replay_obj, nofail=False):
 
 def write_evidence(ctx, level, coverage, assumptions):
     os.makedirs(os.path.join(VERIF, "evidence"), exist_ok=True)
+    try:   # which tree this run judged (extra key; checks always rebuild from REPO's working tree)
+        head = subprocess.check_output(["git", "-C", REPO, "rev-parse", "--short", "HEAD"], text=True).strip()
+        dirty = bool(subprocess.check_output(["git", "-C", REPO, "status", "--porcelain", "--untracked-files=no"], text=True).strip())
+        coverage = dict(coverage, repo={"path": REPO, "head": head, "working_tree_modified": dirty})
+    except Exception:
+        pass
     ev = {
         "property_id": ctx.pid, "tier": ctx.tier, "seed": ctx.seed, "level": level,
         "coverage": coverage, "assumptions": assumptions,
